@@ -21,7 +21,8 @@ def RULE(tier):
         "counterparty with correct CompIDs: type in {application (MsgType rotating over D, 8, j, AE, a custom type and the session-level Reject 3), Heartbeat, TestRequest, ResendRequest, "
         "SequenceReset-GapFill, SequenceReset-Reset} x MsgSeqNum in {E-2, E-1, E, E+1, E+5} x PossDupFlag in {absent, Y} x "
         f"(for resets) NewSeqNo in {{E-1, E+1, E+4}}: EXHAUSTIVELY all histories of length <= {a} over the full 100-symbol "
-        f"alphabet and of length {b} over a 24-symbol reduction, plus Hypothesis histories up to 12 (quick) / 40 (thorough). "
+        f"alphabet and of length {b} over a 24-symbol reduction, plus Hypothesis histories up to 12 (quick) / 40 (thorough), plus long histories (one gap followed by 300 frames above E; 14 gaps each closed by a GapFill; "
+        "counters crossing 9, 99, 999, 9999, 999999999, 2^31, 10^18 and ending at 2^63-1). "
         "Reference model = one integer E, an awaiting flag and a watermark. Per frame: on_message is called iff the frame is "
         "an application message numbered exactly E; next_num_in moves by one per accepted frame or to NewSeqNo of an "
         "honoured forward reset and never otherwise; a frame above E outside a resend wait produces exactly one "
@@ -70,11 +71,14 @@ class Model:
         self.E, self.awaiting, self.W = E, awaiting, W
 
 
-def run_history(acc, role, start, hist, origin):
+def run_history(acc, role, start, hist, origin, counters=None):
     # the expected inbound number starts below a digit-count boundary for part of the histories (9 -> 10, 99 -> 100, 999 -> 1000)
     n0 = (1, 1, 8, 97, 998, 1)[(len(hist) + sum(len(str(x)) for x in hist[:1])) % 6] if hist else 1
-    b = Bench(role, start, next_in=n0, next_out=(1, 9, 99)[len(hist) % 3])
-    case = {"role": role, "start": start, "hist": [list(s) for s in hist]}
+    if counters:
+        b = Bench(role, start, next_in=counters[0], next_out=counters[1])
+    else:
+        b = Bench(role, start, next_in=n0, next_out=(1, 9, 99)[len(hist) % 3])
+    case = {"role": role, "start": start, "hist": [list(s) for s in hist], "counters": list(counters) if counters else None}
     flags = set()
 
     def bad(sig, detail):
@@ -218,6 +222,19 @@ def EXHAUSTIVE(tier):
     return False
 
 
+def long_histories(acc):
+    """Histories far longer than the exhaustive bound: one gap followed by 300 frames above the expected number (exactly one
+    ResendRequest), 14 separate gaps each requested once and closed by a GapFill, in-sequence traffic across the 9 / 99 / 999 /
+    999999999 / 2^31 / 10^18 counter boundaries."""
+    A = ("APP", 0, False, 0)
+    for role in ROLES:
+        run_history(acc, role, "active", [("APP", 1, False, 0)] + [("APP", 5, False, 0), ("HB", 2, False, 0), ("APP", 1, True, 0)] * 100 + [("GF", 0, True, 9), A, A], "long")
+        run_history(acc, role, "active", ([("APP", 1, False, 0), ("GF", 0, True, 2), A, ("HB", 0, False, 0)]) * 14 + [A], "long")
+        for n in (8, 98, 998, 9998, 999999998, 2**31 - 2, 10**18 - 2, 2**63 - 8):
+            run_history(acc, role, "active", [A, A, ("HB", 0, False, 0), A, ("APP", 1, False, 0), ("GF", 0, True, 3), A, A], "long", counters=(n, 5))
+    acc.klass("long-histories")
+
+
 def plan(tier, seed):
     a, b = LEN[tier]
     jobs = []
@@ -227,10 +244,11 @@ def plan(tier, seed):
             jobs += [("exhaustive", {"role": role, "start": start, "length": a, "reduced": False, "part": i, "parts": parts}) for i in range(parts)]
             parts = 2 if tier == "quick" else 8
             jobs += [("exhaustive", {"role": role, "start": start, "length": b, "reduced": True, "part": i, "parts": parts}) for i in range(parts)]
+    jobs.append(("long_histories", {}))
     n, k, ml = (400, 8, 12) if tier == "quick" else (8000, 12, 40)
     jobs += [("hyp_shard", {"n": n, "seed": derive_seed(seed, PROPERTY, i), "maxlen": ml}) for i in range(k)]
     return jobs
 
 
 def replay(acc, case):
-    run_history(acc, case["role"], case["start"], [tuple(s) for s in case["hist"]], "replay")
+    run_history(acc, case["role"], case["start"], [tuple(s) for s in case["hist"]], "replay", counters=tuple(case["counters"]) if case.get("counters") else None)
